@@ -196,6 +196,11 @@ pub struct SubSpec {
     /// channeled subscribers (their callback runs on the thread that unsubscribe() joins).
     #[serde(default)]
     pub on_notify_ops: Vec<(ActId, Vec<Op>)>,
+    /// direct subscribers only: registered as the crate's `FnSubscriber` wrapper around the
+    /// scripted callback (one wrapper object per subscriber id). The wrapper has no
+    /// `on_unsubscribe` of its own, so the release of such a subscriber is not observable.
+    #[serde(default)]
+    pub fn_wrapped: bool,
 }
 
 #[derive(Clone, Debug, PartialEq, Eq, Hash, Serialize, Deserialize)]
